@@ -772,6 +772,14 @@ impl Scenario for S16 {
     }
 }
 
+fn enum_depth(tier: Tier) -> u32 {
+    if tier == Tier::Quick {
+        7
+    } else {
+        9
+    }
+}
+
 pub struct P16;
 
 impl Property for P16 {
@@ -861,6 +869,39 @@ impl Property for P16 {
         let mut all: Vec<S16> = out.into_iter().map(S16::Single).collect();
         all.extend(crate::pipe::PipeSc::sweeps().into_iter().map(S16::Pipe));
         all
+    }
+
+    // exhaustive bounded enumeration: every lane of the given depth over the alphabet
+    // {accept 1, accept 2, accept all, Pending+keep polling, Pending+cancel(then sync), accept 0, transient error}
+    // for two small frames (11 bytes)
+    fn enumerated(tier: Tier) -> u64 {
+        7u64.pow(enum_depth(tier))
+    }
+
+    fn enumerate(tier: Tier, i: u64) -> S16 {
+        let depth = enum_depth(tier);
+        let mut x = i;
+        let mut sink = Vec::with_capacity(depth as usize);
+        let mut caller = Vec::new();
+        for _ in 0..depth {
+            match x % 7 {
+                0 => sink.push(Step::Xfer(1)),
+                1 => sink.push(Step::Xfer(2)),
+                2 => sink.push(Step::Xfer(u32::MAX)),
+                3 => {
+                    sink.push(Step::Pending);
+                    caller.push(Decide::Poll)
+                }
+                4 => {
+                    sink.push(Step::Pending);
+                    caller.push(Decide::Cancel)
+                }
+                5 => sink.push(Step::Zero),
+                _ => sink.push(Step::Err(ErrKind::TimedOut)),
+            }
+            x /= 7;
+        }
+        S16::Single(C16 { sink, caller, ..base(vec![val(Ty::Str, 0, 7), val(Ty::Str, 1, 8)]) })
     }
 
     fn random_runs(tier: Tier) -> u64 {
